@@ -1215,6 +1215,16 @@ def cross_param_stores(model, f: FunctionInfo, params=None):
             # arithmetic / copy / slice of parameters (numpy result_type of the operands); allocation calls with dtype are not this rule's
             if isinstance(v, ast.Call):
                 k = model.resolve_call(f, v).key or ""
+                if k in ("numpy.empty", "numpy.zeros", "numpy.ones", "numpy.full", "numpy.empty_like", "numpy.zeros_like", "numpy.ones_like", "numpy.full_like"):
+                    # an allocation whose dtype is computed from some of the array parameters (dtype=np.result_type(a, b), dtype=a.dtype,
+                    # zeros_like(a)): the buffer can hold what those parameters hold, nothing wider
+                    dt = next((kw.value for kw in v.keywords if kw.arg == "dtype"), None)
+                    src = dt if dt is not None else (v.args[0] if k.endswith("_like") and v.args else None)
+                    if src is not None and not (isinstance(src, (ast.Name, ast.Attribute)) and unparse(src) in ("float", "complex", "int", "np.float64", "np.complex128", "bool")):
+                        S_ = og.of(src) & aps
+                        if S_:
+                            bufs.setdefault(n.targets[0].id, []).append((n, S_))
+                    continue
                 if not (isinstance(v.func, ast.Attribute) and v.func.attr in ("copy", "astype") or k in ("numpy.copy", "numpy.array", "numpy.asarray", "copy.copy", "copy.deepcopy")):
                     continue
                 if any(kw.arg == "dtype" for kw in v.keywords) or (isinstance(v.func, ast.Attribute) and v.func.attr == "astype"):
